@@ -3,6 +3,7 @@ import SnaxVerif.Model.StridePattern
 import SnaxVerif.Model.PackBits
 import SnaxVerif.Model.AffineTransform
 import SnaxVerif.Model.AttrSyntax
+import SnaxVerif.Model.AccessCanon
 namespace SnaxVerif.Drv.C19
 open Lean SnaxVerif SnaxVerif.Drv
 
@@ -205,11 +206,41 @@ def cfgParse : Handler := fun j => do
 def optTable : Handler := fun _ => do
   return jList (fun o => Json.str (Syntax.optName o)) Syntax.allOpts
 
+/-! ### AccessPattern -/
+
+def clsName : AP.Cls → String
+  | .access => "access" | .schedule => "schedule" | .template => "template"
+
+def apToJson (p : AP.Pattern) : Json :=
+  Json.mkObj [("cls", Json.str (clsName p.cls)), ("bounds", jList (jOpt jInt) p.bounds), ("t", transToJson p.t)]
+
+def apErr : AP.Err → Json
+  | .valueError => Json.mkObj [("raised", Json.str "ValueError")]
+  | .typeError => Json.mkObj [("raised", Json.str "TypeError")]
+
+/-- args: {"cls", "bounds": [int|null], "t": transform, "dim": int}
+ -> {"raised"} (constructor) | {"canon": pattern, "inner": pattern | {"raised"}} -/
+def apHandler : Handler := fun j => do
+  let cls ← match ← str (← field j "cls") with
+    | "access" => pure AP.Cls.access | "schedule" => pure AP.Cls.schedule | "template" => pure AP.Cls.template
+    | s => throw s!"bad class {s}"
+  let bounds ← listOf (optOf int) (← field j "bounds")
+  let t ← transOfJson (← field j "t")
+  wfT t
+  let dim ← int (← field j "dim")
+  match AP.construct cls bounds t with
+  | .error e => return apErr e
+  | .ok p =>
+    let inner := match p.innerDims dim with
+      | .ok q => apToJson q
+      | .error e => apErr e
+    return Json.mkObj [("canon", apToJson p.canonicalize), ("inner", inner)]
+
 def handlers : List (String × Handler) :=
   [("c19.canon", canon), ("c19.eval", evalPts), ("c19.sp_canon", spCanon), ("c19.pack", pack),
    ("c19.at_tomap", atToMap), ("c19.at_frommap", atFromMap), ("c19.at_compose", atCompose),
    ("c19.at_compose_eval", atComposeEval), ("c19.at_eval", atEval), ("c19.sp_syntax", spSyntax),
    ("c19.sp_parse", spParse), ("c19.cfg_syntax", cfgSyntax), ("c19.cfg_parse", cfgParse),
-   ("c19.opt_table", optTable)]
+   ("c19.opt_table", optTable), ("c19.ap", apHandler)]
 
 end SnaxVerif.Drv.C19
